@@ -29,7 +29,7 @@ pub fn iter_find<'a, T, F: Fn(&&'a T) -> bool>(xs: &'a Vec<T>, f: F, Ghost(p): G
 { xs.iter().find(f) }
 
 //@extract lsp4spl/src/features.rs :: impl DocumentCursor :: fn ident
-//@ rewrite iter_find range_contains name_clone
+//@ rewrite iter_find name_clone
 //@ ret r
 //@ sig
         ensures same_ident(r, cursor_ident(*self)), //# DocumentCursor::ident::the_identifier_token_under_the_cursor
